@@ -1,5 +1,5 @@
 //vp:target x/vault/keeper/zz_vp_shared.go
-//vp:props C01 C02 C03 C12 C14
+//vp:props C01 C02 C03 C12 C13 C14
 //vp:load ./app
 //go:build verif
 
